@@ -186,6 +186,15 @@ where
         self.project().transport.get_pin_mut()
     }
 
+    /// (tracked requests, pending deadline timers): read-only verification gauges.
+    #[cfg(tarpc_verif)]
+    pub fn verif_gauges(&self) -> (usize, usize) {
+        (
+            self.in_flight_requests.len(),
+            self.in_flight_requests.verif_timers(),
+        )
+    }
+
     fn in_flight_requests_mut<'a>(self: &'a mut Pin<&mut Self>) -> &'a mut InFlightRequests {
         self.as_mut().project().in_flight_requests
     }
